@@ -145,6 +145,10 @@ func runFuzz19(w *bufio.Writer, id int, seed int64) (fails int) {
 	r := rand.New(rand.NewSource(seed))
 	root, _ := os.MkdirTemp("", "hzf")
 	defer os.RemoveAll(root)
+	if kd := os.Getenv("FUZZ19_KEEP"); kd != "" {
+		// debugging aid: keep the mutated directory
+		defer func() { copyDir(root, kd) }()
+	}
 	vshim.SetVirtual(true)
 	p := profile("C02")
 	p.MaxOps = 14
@@ -232,6 +236,9 @@ func runFuzz19(w *bufio.Writer, id int, seed int64) (fails int) {
 		if target == sod.SchemaFilename {
 			what = "bytes:schema:" + how
 		}
+	}
+	if kd := os.Getenv("FUZZ19_KEEP"); kd != "" {
+		copyDir(root, kd+".mutated")
 	}
 	// ---- battery on a fresh handle
 	db := sod.Open(root)
